@@ -237,11 +237,23 @@ func (l *ledger) give(x interface{}) {
 	l.rel++
 	l.mu.Unlock()
 }
-func (l *ledger) AcquireGzipWriter() *gzip.Writer { w := l.inner.AcquireGzipWriter(); l.take(w); return w }
+func (l *ledger) AcquireGzipWriter() *gzip.Writer {
+	w := l.inner.AcquireGzipWriter()
+	l.take(w)
+	return w
+}
 func (l *ledger) ReleaseGzipWriter(w *gzip.Writer) { l.give(w); l.inner.ReleaseGzipWriter(w) }
-func (l *ledger) AcquireGzipReader() *gzip.Reader { w := l.inner.AcquireGzipReader(); l.take(w); return w }
+func (l *ledger) AcquireGzipReader() *gzip.Reader {
+	w := l.inner.AcquireGzipReader()
+	l.take(w)
+	return w
+}
 func (l *ledger) ReleaseGzipReader(w *gzip.Reader) { l.give(w); l.inner.ReleaseGzipReader(w) }
-func (l *ledger) AcquireZlibWriter() *zlib.Writer { w := l.inner.AcquireZlibWriter(); l.take(w); return w }
+func (l *ledger) AcquireZlibWriter() *zlib.Writer {
+	w := l.inner.AcquireZlibWriter()
+	l.take(w)
+	return w
+}
 func (l *ledger) ReleaseZlibWriter(w *zlib.Writer) { l.give(w); l.inner.ReleaseZlibWriter(w) }
 
 // ---------- building ----------
